@@ -132,7 +132,7 @@ func Scalar(t *rapid.T, label string, kinds ...lang.Kind) lang.Value {
 func HashKey(t *rapid.T, label string) lang.Value {
 	switch rapid.IntRange(0, 5).Draw(t, label+"_kk") {
 	case 0, 1, 2:
-		return lang.Str(rapid.SampledFrom([]string{"a", "b", "c", "Name", "k1", "k2", "1", "2.5", "é"}).Draw(t, label))
+		return lang.Str(rapid.SampledFrom([]string{"a", "b", "c", "Name", "k1", "k2", "1", "2.5", "é", "è", "ü", "д", "ж", "世", "中", "ab", "ba", "", "a ", "A"}).Draw(t, label))
 	case 3, 4:
 		return lang.Int(rapid.Int64Range(-2, 6).Draw(t, label))
 	}
@@ -210,7 +210,7 @@ func HashValue(t *rapid.T, label string, o ValueOpts) lang.Value {
 	for i := 0; i < n; i++ {
 		var k lang.Value
 		if o.FieldSafe || o.StringKey {
-			k = lang.Str(rapid.SampledFrom([]string{"a", "b", "c", "Name", "k1", "é"}).Draw(t, label+"_k"))
+			k = lang.Str(rapid.SampledFrom([]string{"a", "b", "c", "Name", "k1", "é", "è", "世", "中", "ab"}).Draw(t, label+"_k"))
 		} else {
 			k = HashKey(t, label+"_k")
 		}
